@@ -31,13 +31,13 @@ NEST = b"[" * 2000                      # deeply nested JSON array
 DICTIONARY = [b"\x00", b"\xff", b"%", b"%00", b"..", b"[", b"]", b";", b'"', b"=", DIGITS, b"charset=x",
               b"charset=utf-16", b"boundary=", b"W/", b"bytes=", b"-", b",", b"://", b"[::1", b"\r", NEST,
               # a few more in the same spirit
-              b"%ff", b"/", b":", b"charset=idna", b"\r\n", b" ", b"x"]
+              b"%ff", b"/", b":", b";charset=undefined", b"\r\n", b" ", b"x"]
 _D = {name: DICTIONARY.index(v) for name, v in
       [("nul", b"\x00"), ("ff", b"\xff"), ("pct", b"%"), ("pct00", b"%00"), ("dots", b".."), ("lb", b"["), ("rb", b"]"),
        ("semi", b";"), ("quote", b'"'), ("eq", b"="), ("digits", DIGITS), ("csx", b"charset=x"), ("cs16", b"charset=utf-16"),
        ("bnd", b"boundary="), ("weak", b"W/"), ("bytes", b"bytes="), ("dash", b"-"), ("comma", b","), ("css", b"://"),
        ("v6", b"[::1"), ("cr", b"\r"), ("nest", NEST), ("pctff", b"%ff"), ("slash", b"/"), ("colon", b":"),
-       ("csidna", b"charset=idna"), ("crlf", b"\r\n"), ("sp", b" "), ("x", b"x")]}
+       ("csundef", b";charset=undefined"), ("crlf", b"\r\n"), ("sp", b" "), ("x", b"x")]}
 
 
 def _ids(*names):
@@ -48,7 +48,7 @@ def _ids(*names):
 PREFERRED = {
     "path": _ids("pct", "pct00", "dots", "digits", "pctff", "slash", "x", "dash", "colon", "semi"),
     "query": _ids("pct", "pct00", "pctff", "eq", "semi", "lb", "rb", "digits", "ff"),
-    "h:content-type": _ids("csx", "cs16", "csidna", "bnd", "semi", "quote", "eq", "slash"),
+    "h:content-type": _ids("csx", "cs16", "csundef", "bnd", "semi", "quote", "eq", "slash"),
     "h:content-length": _ids("digits", "dash", "x", "comma"),
     "h:range": _ids("digits", "bytes", "dash", "comma", "eq", "sp"),
     "h:if-range": _ids("weak", "quote", "digits", "comma"),
